@@ -51,7 +51,7 @@ def _lab(r, *extra):
 PROPS["C05"] = {
     "theorem_modules": ["Sidetree.Props.C05"],
     "prescribes": "Sidetree.jcs / Sidetree.transform (Props.C05: normalize_obj_sorted, member_order_irrelevant, escape_minimal, es6Notation)",
-    "obligations": [
+    "obligations": [{"name": "Shape_Jcs", "facts": "module:Jcs"}, 
         {"name": "C05_fixedRange", "facts": ["es6FixedRange"]},
         {"name": "C05_sortKey", "facts": ["jcsSortKey"]},
         {"name": "C05_escapes", "facts": ["jcsAsciiEscapes", "jcsBinaryEscapes", "jcsControlFormat"]},
@@ -79,7 +79,7 @@ PROPS["C05"] = {
 PROPS["C06"] = {
     "theorem_modules": ["Sidetree.Props.C06"],
     "prescribes": "Sidetree.Hashing.* (Props.C06: model_multihash_def, valid_iff, code_of_hash, computed_using_iff)",
-    "obligations": [
+    "obligations": [{"name": "Shape_Jcs", "facts": "module:Jcs"}, 
         {"name": "C06_supportedCodes", "facts": ["hashSupportedCodes"]},
         {"name": "C06_validCompare", "facts": ["isValidCompare", "isValidCalls"]},
     ],
@@ -102,7 +102,7 @@ PROPS["C06"] = {
 PROPS["C04"] = {
     "theorem_modules": ["Sidetree.Props.C04"],
     "prescribes": "Sidetree.Hashing.commitment / revealValue / commitmentFromReveal (Props.C04.commitment_of_reveal)",
-    "obligations": [
+    "obligations": [{"name": "Shape_Jcs", "facts": "module:Jcs"}, 
         {"name": "C04_commitmentShape", "facts": ["commitmentInnerHash", "commitmentFromRevealCalls"]},
     ],
     "streams": [{"gen": "C04", "quick": 4000, "thorough": 150000}],
@@ -123,7 +123,7 @@ PROPS["C13"] = {
     "prescribes": "Sidetree.Validator.validate (Props.C13: validID_iff, matrix_exact, publicKeysOK_iff, servicesOK_iff, endpointOK_iff, validate_replace, ...)",
     "obligations": [
         {"name": "C13_limits", "facts": ["maxIDLength", "maxServiceTypeLength", "idRegexp", "limitOps"]},
-        {"name": "C13_matrix", "facts": ["allowedPurposes", "keyTypesGeneral", "keyTypesVerification", "keyTypesAgreement", "keyTypePurpose"]},
+        {"name": "Shape_PatchPkg", "facts": "module:PatchPkg"}, {"name": "C13_matrix", "facts": ["allowedPurposes", "keyTypesGeneral", "keyTypesVerification", "keyTypesAgreement", "keyTypePurpose"]},
         {"name": "C13_members", "facts": ["pkRequiredMembers", "pkOptionalMembers", "pkOneOfMembers", "replaceAllowedMembers", "base58Exception", "endpointLoopShape"]},
         {"name": "C11_ietfValidator", "facts": ["protectedPrefixes", "inspectedMembers", "ietfConds", "pointerConds"]},
         {"name": "C14_actionConfig", "facts": ["actionConfig"]},
@@ -220,13 +220,14 @@ PROPS["C14"] = {
     "obligations": [
         {"name": "C14_actionConfig", "facts": ["actionConfig"]},
         {"name": "C14_fromDocumentShape", "facts": ["fromDocumentCases", "jsonPatchAddTemplate"]},
+        {"name": "Shape_PatchPkg", "facts": "module:PatchPkg"},
         {"name": "C13_limits", "facts": ["maxIDLength", "maxServiceTypeLength", "idRegexp", "limitOps"]},
         {"name": "Shape_Composer", "facts": "module:Composer"},
     ],
-    "streams": [{"gen": "C14", "quick": 4000, "thorough": 200000}],
-    "label": lambda r: _lab(r, r["model"].get("class")),
-    "nontrivial": lambda r: r["model"].get("class") == "ok",
-    "shape": lambda r: r["case"]["doc"],
+    "streams": [{"gen": "C14", "quick": 4000, "thorough": 200000}, {"gen": "C13", "quick": 1500, "thorough": 60000}],
+    "label": lambda r: _lab(r, r["model"].get("class") or (r["model"].get("from_bytes", "") + "/" + str(r["model"].get("validate")))),
+    "nontrivial": lambda r: r["model"].get("class") == "ok" or r["model"].get("from_bytes") == "ok",
+    "shape": lambda r: r["case"].get("doc") or r["case"].get("patch") or r["case"],
     "rule": "documents without an id whose publicKey/service/alsoKnownAs members are non-empty lists (keys of every type, services with every endpoint shape) plus further members with "
             "ordinary names over all Unicode planes and arbitrary simple JSON values; labelled out-of-quantifier shapes (with id, empty id, empty/ill-typed alsoKnownAs, ill-typed publicKey, "
             "non-objects). Compared: PatchesFromDocument result (patch list as values), validation verdict of every produced patch, Bytes()/FromBytes round trip with accessor agreement, "
@@ -364,7 +365,7 @@ PROPS["C07"] = {
 PROPS["C12"] = {
     "theorem_modules": ["Sidetree.Props.C12"],
     "prescribes": "Sidetree.Effects.disciplined_sound on Generated.prog_ApplyPatches / prog_Apply",
-    "obligations": [
+    "obligations": [{"name": "Shape_Jcs", "facts": "module:Jcs"}, 
         {"name": "C12_effects", "facts": ["prog_ApplyPatches", "inputs_ApplyPatches", "prog_Apply", "inputs_Apply"]},
         {"name": "C12_copyFirst", "facts": ["applyPatchesFirst", "deepCopyCalls"]},
     ],
@@ -716,7 +717,7 @@ def _c19_property(r):
 PROPS["C19"] = {
     "theorem_modules": ["Sidetree.Props.C19"],
     "prescribes": "every model entry point is a total function into a result type whose hazard outcomes (panic, blowup) are explicit; Props.C19 characterises when they occur",
-    "obligations": [{"name": "C19_recoverGuard", "facts": ["recoverGuard"]}, {"name": "Shape_Composer", "facts": "module:Composer"},
+    "obligations": [{"name": "Shape_Jcs", "facts": "module:Jcs"}, {"name": "C19_recoverGuard", "facts": ["recoverGuard"]}, {"name": "Shape_Composer", "facts": "module:Composer"},
                     {"name": "Shape_Did", "facts": "module:Did"}] + _PARSER_OBL + _APPLIER_OBL + _JWS_OBL + _KEYS_OBL +
                    [{"name": "Shape_Transformer", "facts": "module:Transformer"}],
     "streams": [{"gen": "C19compose", "quick": 3000, "thorough": 200000}, {"gen": "C19transform", "quick": 2000, "thorough": 100000},
